@@ -169,6 +169,10 @@ func (e *Engine) run(st *State) (succ []*State) {
 		}
 	}()
 	for {
+		if st.sumPending && st.arrived == 0 {
+			st.sumPending = false
+			st.sumDone = true
+		}
 		if st.done || st.sumDone || st.arrived > 0 {
 			return nil
 		}
@@ -650,8 +654,18 @@ func (e *Engine) doReturn(st *State, res Value) {
 	}
 	th.frames = th.frames[:len(th.frames)-1]
 	if f.barrier {
-		st.sumDone = true
 		st.sumRes = res
+		// the exit of a summarised function may itself be a merge point of an If inside it
+		for i := len(st.stops) - 1; i >= 0; i-- {
+			sp := st.stops[i]
+			if sp.blk == nil && sp.frameID == f.id && sp.thread == st.cur {
+				st.arrived = i + 1
+				st.sumPending = true
+				st.sumCoarse = e.summariseByPattern(f.fn)
+				return
+			}
+		}
+		st.sumDone = true
 		return
 	}
 	if len(th.frames) == 0 {
@@ -830,6 +844,14 @@ func (e *Engine) callValue(st *State, fnv Value, args []Value, retTo ssa.Value, 
 	th := st.thread()
 	if len(th.frames) > 200 {
 		unm("call depth exceeded at %s", name)
+	}
+	if e.summariseByPattern(fn) && len(args) == 2 {
+		// generated validators: run in first-error mode. validate(true) and validate(false) agree
+		// on whether an error is returned; only that is used (errors are propagated, not inspected)
+		if _, isBool := args[1].(*Term); isBool {
+			args = []Value{args[0], tFalse}
+			e.noteAssume("generated validators (pb.validate) are executed in first-error mode: only the nil-ness of their result is used")
+		}
 	}
 	if (e.summarise[name] || e.summariseByPattern(fn)) && !e.inInit {
 		return e.summariseCall(st, fn, args, fv.bind, retTo, advance)
